@@ -95,6 +95,8 @@ impl AbstractTree for Tree {
     fn get_version_history_lock(
         &self,
     ) -> std::sync::RwLockWriteGuard<'_, crate::version::SuperVersions> {
+        #[cfg(feature = "verif")]
+        crate::verif::probe_write(&self.version_history, "tree/mod.rs:version_history.write#0");
         #[expect(clippy::expect_used, reason = "lock is expected to not be poisoned")]
         self.version_history.write().expect("lock is poisoned")
     }
@@ -112,6 +114,8 @@ impl AbstractTree for Tree {
     }
 
     fn print_trace(&self, key: &[u8]) -> crate::Result<()> {
+        #[cfg(feature = "verif")]
+        crate::verif::probe_read(&self.version_history, "tree/mod.rs:version_history.read#1");
         #[expect(clippy::expect_used, reason = "lock is expected to not be poisoned")]
         let super_version = self
             .version_history
@@ -155,6 +159,8 @@ impl AbstractTree for Tree {
     }
 
     fn get_internal_entry(&self, key: &[u8], seqno: SeqNo) -> crate::Result<Option<InternalValue>> {
+        #[cfg(feature = "verif")]
+        crate::verif::probe_read(&self.version_history, "tree/mod.rs:version_history.read#2");
         #[expect(clippy::expect_used, reason = "lock is expected to not be poisoned")]
         let super_version = self
             .version_history
@@ -166,6 +172,8 @@ impl AbstractTree for Tree {
     }
 
     fn current_version(&self) -> Version {
+        #[cfg(feature = "verif")]
+        crate::verif::probe_read(&self.version_history, "tree/mod.rs:version_history.read#3");
         #[expect(clippy::expect_used, reason = "lock is expected to not be poisoned")]
         self.version_history
             .read()
@@ -175,6 +183,8 @@ impl AbstractTree for Tree {
     }
 
     fn get_flush_lock(&self) -> std::sync::MutexGuard<'_, ()> {
+        #[cfg(feature = "verif")]
+        crate::verif::probe_mutex(&self.flush_lock, "tree/mod.rs:flush_lock.lock#4");
         #[expect(clippy::expect_used, reason = "lock is expected to not be poisoned")]
         self.flush_lock.lock().expect("lock is poisoned")
     }
@@ -185,6 +195,8 @@ impl AbstractTree for Tree {
     }
 
     fn version_free_list_len(&self) -> usize {
+        #[cfg(feature = "verif")]
+        crate::verif::probe_read(&self.version_history, "tree/mod.rs:version_history.read#5");
         #[expect(clippy::expect_used, reason = "lock is expected to not be poisoned")]
         self.version_history
             .read()
@@ -250,6 +262,8 @@ impl AbstractTree for Tree {
         let strategy = Arc::new(crate::compaction::drop_range::Strategy::new(bounds));
 
         // IMPORTANT: Write lock so we can be the only compaction going on
+        #[cfg(feature = "verif")]
+        crate::verif::probe_write(&self.0.major_compaction_lock, "tree/mod.rs:major_compaction_lock.write#6");
         #[expect(clippy::expect_used, reason = "lock is expected to not be poisoned")]
         let _lock = self
             .0
@@ -284,6 +298,8 @@ impl AbstractTree for Tree {
         let strategy = Arc::new(crate::compaction::major::Strategy::new(target_size));
 
         // IMPORTANT: Write lock so we can be the only compaction going on
+        #[cfg(feature = "verif")]
+        crate::verif::probe_write(&self.0.major_compaction_lock, "tree/mod.rs:major_compaction_lock.write#7");
         #[expect(clippy::expect_used, reason = "lock is expected to not be poisoned")]
         let _lock = self
             .0
@@ -330,6 +346,8 @@ impl AbstractTree for Tree {
     }
 
     fn sealed_memtable_count(&self) -> usize {
+        #[cfg(feature = "verif")]
+        crate::verif::probe_read(&self.version_history, "tree/mod.rs:version_history.read#8");
         #[expect(clippy::expect_used, reason = "lock is expected to not be poisoned")]
         self.version_history
             .read()
@@ -445,8 +463,12 @@ impl AbstractTree for Tree {
             blob_files.map(<[BlobFile]>::len).unwrap_or_default(),
         );
 
+        #[cfg(feature = "verif")]
+        crate::verif::probe_mutex(&self.compaction_state, "tree/mod.rs:compaction_state.lock#9");
         #[expect(clippy::expect_used, reason = "lock is expected to not be poisoned")]
         let mut _compaction_state = self.compaction_state.lock().expect("lock is poisoned");
+        #[cfg(feature = "verif")]
+        crate::verif::probe_write(&self.version_history, "tree/mod.rs:version_history.write#10");
         #[expect(clippy::expect_used, reason = "lock is expected to not be poisoned")]
         let mut version_lock = self.version_history.write().expect("lock is poisoned");
 
@@ -492,6 +514,8 @@ impl AbstractTree for Tree {
     fn clear_active_memtable(&self) {
         use crate::tree::sealed::SealedMemtables;
 
+        #[cfg(feature = "verif")]
+        crate::verif::probe_write(&self.version_history, "tree/mod.rs:version_history.write#11");
         #[expect(clippy::expect_used, reason = "lock is expected to not be poisoned")]
         let mut version_history_lock = self.version_history.write().expect("lock is poisoned");
         let super_version = version_history_lock.latest_version();
@@ -520,6 +544,8 @@ impl AbstractTree for Tree {
         // NOTE: Read lock major compaction lock
         // That way, if a major compaction is running, we cannot proceed
         // But in general, parallel (non-major) compactions can occur
+        #[cfg(feature = "verif")]
+        crate::verif::probe_read(&self.0.major_compaction_lock, "tree/mod.rs:major_compaction_lock.read#12");
         #[expect(clippy::expect_used, reason = "lock is expected to not be poisoned")]
         let _lock = self
             .0
@@ -539,6 +565,8 @@ impl AbstractTree for Tree {
     }
 
     fn active_memtable(&self) -> Arc<Memtable> {
+        #[cfg(feature = "verif")]
+        crate::verif::probe_read(&self.version_history, "tree/mod.rs:version_history.read#13");
         #[expect(clippy::expect_used, reason = "lock is expected to not be poisoned")]
         self.version_history
             .read()
@@ -549,6 +577,8 @@ impl AbstractTree for Tree {
 
     #[expect(clippy::significant_drop_tightening)]
     fn rotate_memtable(&self) -> Option<Arc<Memtable>> {
+        #[cfg(feature = "verif")]
+        crate::verif::probe_write(&self.version_history, "tree/mod.rs:version_history.write#14");
         #[expect(clippy::expect_used, reason = "lock is expected to not be poisoned")]
         let mut version_history_lock = self.version_history.write().expect("lock is poisoned");
         let super_version = version_history_lock.latest_version();
@@ -586,6 +616,8 @@ impl AbstractTree for Tree {
     }
 
     fn approximate_len(&self) -> usize {
+        #[cfg(feature = "verif")]
+        crate::verif::probe_read(&self.version_history, "tree/mod.rs:version_history.read#15");
         #[expect(clippy::expect_used, reason = "lock is expected to not be poisoned")]
         let super_version = self
             .version_history
@@ -620,6 +652,8 @@ impl AbstractTree for Tree {
     }
 
     fn get_highest_memtable_seqno(&self) -> Option<SeqNo> {
+        #[cfg(feature = "verif")]
+        crate::verif::probe_read(&self.version_history, "tree/mod.rs:version_history.read#16");
         #[expect(clippy::expect_used, reason = "lock is expected to not be poisoned")]
         let version = self
             .version_history
@@ -760,6 +794,8 @@ impl Tree {
     }
 
     pub(crate) fn get_version_for_snapshot(&self, seqno: SeqNo) -> SuperVersion {
+        #[cfg(feature = "verif")]
+        crate::verif::probe_read(&self.version_history, "tree/mod.rs:version_history.read#17");
         #[expect(clippy::expect_used, reason = "lock is expected to not be poisoned")]
         self.version_history
             .read()
@@ -838,6 +874,8 @@ impl Tree {
     #[doc(hidden)]
     #[must_use]
     pub fn is_compacting(&self) -> bool {
+        #[cfg(feature = "verif")]
+        crate::verif::probe_mutex(&self.compaction_state, "tree/mod.rs:compaction_state.lock#18");
         #[expect(clippy::expect_used, reason = "lock is expected to not be poisoned")]
         !self
             .compaction_state
@@ -881,6 +919,8 @@ impl Tree {
         seqno: SeqNo,
         ephemeral: Option<(Arc<Memtable>, SeqNo)>,
     ) -> impl DoubleEndedIterator<Item = crate::Result<KvPair>> + 'static {
+        #[cfg(feature = "verif")]
+        crate::verif::probe_read(&self.version_history, "tree/mod.rs:version_history.read#19");
         #[expect(clippy::expect_used, reason = "lock is expected to not be poisoned")]
         let super_version = self
             .version_history
@@ -913,6 +953,8 @@ impl Tree {
     #[doc(hidden)]
     #[must_use]
     pub fn append_entry(&self, value: InternalValue) -> (u64, u64) {
+        #[cfg(feature = "verif")]
+        crate::verif::probe_read(&self.version_history, "tree/mod.rs:version_history.read#20");
         #[expect(clippy::expect_used, reason = "lock is expected to not be poisoned")]
         self.version_history
             .read()
